@@ -304,11 +304,23 @@ def gen_k_plan(run_seed: int, hashseed: int = 0, catalogue=None, p_backend_c: fl
         heap_knobs["guard"] = True
         if heap_knobs["realloc"] == "size_class":
             heap_knobs["realloc"] = "move"
+    # history: relatives of the problem generated in the same process just before it (a storage twin
+    # - same iteration structure, other index-to-dimension map - or the problem itself), for a subset
+    # of the kernel kinds.  What is generated for a problem must not depend on it.
+    pre = []
+    if rng.random() < 0.12:
+        for _ in range(rng.choice([1, 1, 2])):
+            tw = storage_twin(rng, prob["assignment"], prob["formats"]) if rng.random() < 0.8 else None
+            a2, f2 = tw if tw is not None else (prob["assignment"], prob["formats"])
+            pre.append({"assignment": a2, "formats": f2,
+                        "kinds": rng.choice([["compute"], ["assemble"], ["evaluate"], ["assemble", "compute"],
+                                             ["compute", "evaluate"]])})
     separate = None
     if not backend_c and rng.random() < 0.12:
         separate = ["assemble", "compute", "evaluate"]
         rng.shuffle(separate)
     return {
+        "pre_generate": pre,
         "separate_modules": separate,
         "engine": "K",
         "run_seed": run_seed,
@@ -378,6 +390,45 @@ def hypersparse_ok(plan):
             "formats": plan["problem"]["formats"], "classes": plan["classes"],
             "target_name": plan["problem"]["assignment"].split("(")[0].strip()}
     return big <= set(_huge_classes(prob))
+
+
+def storage_twin(rng, assignment, formats):
+    """A problem with the SAME iteration structure and another index-to-dimension map: one tensor of
+    order >= 2 has its index list permuted in every mention and its mode ordering permuted the other
+    way, so that every level still stores the same index variable with the same mode - only which
+    `dimensions[k]` holds that variable's extent changes.  -> (assignment, formats) or None"""
+    import re
+
+    cands = [n for n, f in formats.items() if len(parse_fmt(f)[0]) >= 2]
+    if not cands:
+        return None
+    name = rng.choice(sorted(cands))
+    modes, ordering = parse_fmt(formats[name])
+    n = len(modes)
+    perm = list(range(n))
+    for _ in range(5):
+        rng.shuffle(perm)
+        if perm != sorted(perm):
+            break
+    else:
+        return None
+    inv = [perm.index(k) for k in range(n)]
+
+    def mention(m):
+        if m.group(1) != name:
+            return m.group(0)
+        idx = [x.strip() for x in m.group(2).split(",") if x.strip()]
+        if len(idx) != n:
+            return m.group(0)
+        return f"{name}({','.join(idx[perm[k]] for k in range(n))})"
+
+    a2 = re.sub(r"([A-Za-z][A-Za-z0-9]*)\(([^)]*)\)", mention, assignment)
+    new_ord = [inv[ordering[l]] for l in range(n)]
+    f2 = dict(formats)
+    f2[name] = "".join(modes) if new_ord == sorted(new_ord) else "".join(m + str(o) for m, o in zip(modes, new_ord))
+    if a2 == assignment and f2 == formats:
+        return None
+    return a2, f2
 
 
 # ------------------------------------------------- catalogue problems from text
